@@ -11,12 +11,14 @@ CONSTANTS
 VIEW View
 INVARIANTS
   Inv_C15_Sum
+  Inv_C15_HistOwner
   Inv_X15_Counters
 PROPERTIES
   Act_C15_Transfer
   Act_C15_Burn
   Act_C15_Range
   Act_C15_Authority
+  Act_C15_HistAuthority
   Act_C15_FreshIds
   Act_Rejected_NoEffect
   Act_X15_Records
